@@ -305,6 +305,71 @@ CLAIMED = {
             "DESIGN.md §4 C20"),
 }
 
+# additions of later sessions, appended to the entries above (text, note, technique)
+ADDENDA = {
+    "C04": (" The statement is judged on what every simulation scheme actually applies (fixed dates, jump times, maximum step): the diffusion "
+            "coefficient and drift recovered from paths simulated with prescribed variates. The copula chain's variance matrix is judged whatever "
+            "factorisation the code uses.",
+            " One defect repaired in /repo during the work (9752af5: square root of a singular variance matrix).", ""),
+    "C07": (" Histories in which product, control products, ControlVariates, configuration and engine objects are shared across pricings with "
+            "changing process representation, with payoff and control underlyings from every underlying class.",
+            " Two further recorded findings (control on the same underlying class with other parameters; NthSpot control next to a Spot product).", ""),
+    "C10": (" Source-derived tie: LevyTriplet.canonical/zero/center/tilde_drift are translated from /repo's source on every run and the 16 "
+            "conversions are proved, on the translated source, to add off(r') - off(r) (reversible, path-independent), and to equal the model. "
+            "Construction plans: every public construction route of an exponential model x every order of convert / wrap / evaluate.",
+            " One further recorded finding (generic ExponentialOfLevyModel wrapper's process_drift).",
+            " + source-derived definitions (PyLite translator) re-proved on every run"),
+    "C11": (" About half of the objects of every probe come from a construction history (built elsewhere, parameters assigned on the live object, "
+            "copies, factories) and a history oracle compares every evaluation with a fresh object.", "", ""),
+    "C12": (" Operation histories on one live model object (evaluations interleaved with re-assignment of model.copula and in-place parameter "
+            "edits) feed every probe and a history oracle.", "", ""),
+    "C13": (" np.linspace's closed form and the root-searched uniform constructor are proved for all accepted (l, r, h, dim) in exact arithmetic, "
+            "with an iff-characterisation of the one-point-side region and witnesses reproduced on the real constructor; fixed-size constructor "
+            "proved for h > 0, nb >= 2. Constructor histories (several grids on one model object whose parameters are edited in between).",
+            " Float rounding, geomspace and brentq bounds compared only; two further recorded findings.", ""),
+    "C14": (" HyperbolicPairing is proved a bijection N<->N^2 (and N^d, Z^d) for the model with a_n as coded (Dirichlet hyperbola identity proved), "
+            "the exact inverse of a_n and trial-division factorisation; StatesManager proved for all histories without reset and for never-skipping "
+            "histories, with witnesses for skipping / reset histories. Source-derived tie: pairing2d / projection2d of Cantor, Rosenberg-Strong, "
+            "Szudzik, Pepis-Kalmar, the N<->Z folding and PairingToZ1d.pair are translated from /repo's source on every run (Python int -> Int with "
+            "floor division) and proved equal to the Nat model on the naturals, hence mutually inverse bijections with non-negative projections.",
+            " upper_bound_a_n's float bracket, float sqrt / division and sympy factorisation compared only; the Rosenberg-Strong frontier bound "
+            "was repaired in /repo (94bedf1).",
+            " + source-derived definitions (PyLite translator) re-proved on every run"),
+    "C15": (" The coupled Levy-copula simulator's (2,d,n) stacking is modelled and proved row-wise equal to the 1-d simulators on shared times; the "
+            "recorded faults are delimited by equivalences (fixedDates_code_eq_spec_iff, jumpValsCtmc_eq_direct_iff, maxStepCode_steps_le_eps_iff, "
+            "maxStepCode_eq_spec_iff) and the implementation is checked against both sides.",
+            " Two further crash / restart findings for CouplingProcessLevyCopula.", ""),
+    "C16": (" A NumPy-shape model proves that Constant and sigma(t)*x commute with stacking and DiagX does not; df is Lipschitz (epsilon-delta over Q "
+            "and R) and at tenors equals the product of simple compounding factors with unequal periods.",
+            " Broadcasting is proved from modelled NumPy rules (the rules themselves compared).", ""),
+    "C17": (" Plus parity, sign and strike-monotonicity theorems for Rainbow, Bond, Cap, Swaption, Ratchet and CDS (rate payoffs under CurveOK), all "
+            "replayed on the code; sibling products of the same classes working in the other representation between the steps. Source-derived tie: "
+            "FixedCoupon / Forward / Vanilla / CallSpread / Digital.evaluate are translated from /repo's source on every run and the static identities "
+            "(call - put = forward, call spread = call combination >= 0, digital call + put = 1) are proved directly on the translated source; "
+            "alignment with the hand-written model is a separate, weaker-status obligation.",
+            "", " + source-derived definitions (PyLite translator) re-proved on every run"),
+    "C18": (" Exactness of COS: for a log-moneyness density vanishing outside [a,b] and equal to an N-term cosine expansion there, the model's "
+            "cosPut / cosCall / cosDigital applied to the series the code evaluates equal the discounted expectations; for any density the series is "
+            "the integral against the N-term partial sum, so series and truncation error are the only error terms; no-arbitrage shape for a general "
+            "terminal law (Bochner integrals) and its transfer to any price within epsilon; Black-Scholes call as a function of the strike: digital = "
+            "-dC/dK (dividend yield included), antitone, convex, slope in [-df,0], a dropped dividend is a contradiction. Source-derived tie: "
+            "CFBlackScholes.forward / _call_put / call / put / butterfly are translated from /repo's source on every run (exp, log, sqrt, norm.cdf as "
+            "function parameters) and parity is proved on the translated source in both branches for every cdf with cdf(x) + cdf(-x) = 1.",
+            " Bounds on the two COS error terms, FFT errors and norm.cdf are not proved; intrinsic <= BS call is oracle-only.",
+            " + source-derived definitions (PyLite translator) re-proved on every run"),
+    "C19": (" The legs of the CDS are proved to be the expectations of the pathwise payoff under an Exp(theta) default time (FTC over R), tied to the "
+            "code by leg-wise quadrature and the driver. Source-derived tie: CFLevyModel.survival_probability / cds_spread are translated from /repo's "
+            "source on every run and proved to be the stated monotone, invertible functions of the default intensity.",
+            " r = 0 is an excluded point of the real-analysis theorem (recorded finding: CDS.evaluate returns nan).",
+            " + source-derived definitions (PyLite translator) re-proved on every run"),
+    "C20": (" The pricer / target configuration used inside the calibration objective (n, l, spot, r, d, strike, maturity, payoff; Black-Scholes target "
+            "arguments) is measured on the running code and generated obligations re-check that it is the user's default pricer configuration and "
+            "the requested target (calibrate_reprices_target, with a negation witness for mismatching configurations).", "", ""),
+    "C02": (" n-d INVERSION chains in d = 3 with the factory's Rosenberg-Strong pairing.", "", ""),
+    "C09": (" Nested truncations and a second construction history of every model (parameter object constructed elsewhere, then edited to the target).", "", ""),
+    "C01": (" Chains built on models that were truncated before, judged against the input model's own measure.", "", ""),
+}
+
 NOT_YET = "check not built yet in this session (planned: DESIGN.md §4); not claimed until its Lean model, theorems and correspondence exist"
 
 
@@ -315,6 +380,9 @@ def main():
         pid = p["id"]
         if pid in CLAIMED:
             text, note, tech, ref = CLAIMED[pid]
+            if pid in ADDENDA:
+                t2, n2, k2 = ADDENDA[pid]
+                text, note, tech = text + t2, note + n2, tech + k2
             checks.append({
                 "property_id": pid,
                 "quick_cmd": f"./check {pid} quick",
